@@ -82,7 +82,9 @@ C17Step(m, e) ==
                   /\ IsNew(o)
                   /\ \/ IsApp(o) /\ ~\E j \in StoredAt(e.post, o.seq) :
                                         e.post.stored[j].h = o.h /\ e.post.stored[j].len = o.len
-                     \/ ~IsApp(o) /\ StoredAt(e.post, o.seq) # {} /\ StoredAt(e.pre, o.seq) = {}}
+                     \* a new administrative message takes a fresh number: no record may exist under it (a record
+                     \* left there by an earlier, failed send would be replayed in its place on a ResendRequest)
+                     \/ ~IsApp(o) /\ StoredAt(e.post, o.seq) # {}}
         i0 == IF bad = {} THEN 0 ELSE CHOOSE i \in bad : \A j \in bad : i <= j
         o0 == e.out[i0]
     IN IF ~HasPersist(m) \/ bad = {} THEN [ok |-> TRUE, why |-> "", sig |-> "", m |-> m]
